@@ -847,6 +847,13 @@ def primitives(x: Exc, f: FuncInfo, node: ast.AST, st, flow: KindFlow):
         elif "C" in kl | kr and "F" in kl | kr:
             pass
         return
+    if isinstance(node, ast.FormattedValue) and x.arm_intstr and node.conversion in (-1, ord("s")):
+        # f"{x}" is str(x): the same int/str conversion limit applies to an int (also inside a
+        # list / dict) of render data.  Armed only where the kind is known to be data.
+        k = K(node.value)
+        if k != ALL and "O" not in k and k & _k("ILD"):
+            yield "str(int)", "fstring:" + _argtext(node.value) + "\x00" + "".join(sorted(k)), [VE]
+        return
     if isinstance(node, ast.Subscript) and isinstance(node.ctx, ast.Load) and not isinstance(node.slice, ast.Slice):
         kb = K(node.value)
         if kb == ALL or "O" in kb:
